@@ -23,3 +23,16 @@ func init() {
 		}
 	})
 }
+
+func init() {
+	if os.Getenv("DBG_PATHS") == "" {
+		return
+	}
+	register("DBGP", func(p *Prog, r *Report) {
+		f := p.Func(os.Getenv("DBG_PKG"), os.Getenv("DBG_PATHS"))
+		for _, u := range []int{0, 1} {
+			ps, ok := p.enumPaths(f, u, 200000)
+			fmt.Println("unroll", u, "ok", ok, len(ps), "blocks", len(f.Blocks))
+		}
+	})
+}
